@@ -61,12 +61,12 @@ PROPS = {
     ),
     'C14': dict(
         standin_ops=['order.script', 'dom.order_keys', 'dom.keys_after_edits', 'dom.preorder_after_edits'],
-        verus_units=['c14_order', 'c13_tree'],
+        verus_units=['c14_order', 'c13_tree', 'c14_init'],
         level='proof',
         trusted_base=TRUSTED_VERUS,
         assumptions=[A2 + ' (Iterator::position over Weak::upgrade as "first index whose live id matches"; Rc::downgrade)', A4, A5, A6 + '; `version += 1` gets the precondition version < usize::MAX (2^64 edits)', A8],
-        not_decided='the recursive renumbering primitives XmlItem::{place_subtree_after, place_subtree_before, place_descendants, sub_items, last_descendant_or_self_id} and init_order_recursive (they walk the live subtree: assumed callees with the contract "the item and everything below it get consecutive keys next to the anchor", exercised by the edit-history replay grids only); the equivalence of queries on an edited document with queries on its re-parse (evaluator + parser)',
-        explanation='the DocumentOrder layer: get/push/remove/insert_after/insert_before of info/src/lib.rs verified against a sequence-of-live-ids view with the data-structure invariant "no live id twice": the key of a node is 1 + its first index (0 when absent), so keys of present nodes are non-zero and pairwise distinct (lemma), push appends without moving any other key, remove deletes exactly one entry, insert_after/insert_before place the node directly next to the reference node, and a refused call changes nothing; on top of it (unit c13_tree) the callers choose the right neighbour: append numbers the whole inserted subtree after the LAST DESCENDANT of the parent, insert_before before the reference child, append_attribute after the last attribute and before the children, and last_child_or_self_id of elements and documents answers the last item of the subtree',
+        not_decided='the recursive renumbering primitives XmlItem::{place_subtree_after, place_subtree_before, place_descendants, sub_items, last_descendant_or_self_id} (they walk the live subtree: assumed callees with the contract "the item and everything below it get consecutive keys next to the anchor", exercised by the edit-history replay grids only); the equivalence of queries on an edited document with queries on its re-parse (evaluator + parser)',
+        explanation='the DocumentOrder layer: get/push/remove/insert_after/insert_before of info/src/lib.rs verified against a sequence-of-live-ids view with the data-structure invariant "no live id twice": the key of a node is 1 + its first index (0 when absent), so keys of present nodes are non-zero and pairwise distinct (lemma), push appends without moving any other key, remove deletes exactly one entry, insert_after/insert_before place the node directly next to the reference node, and a refused call changes nothing; on top of it (unit c13_tree) the callers choose the right neighbour: append numbers the whole inserted subtree after the LAST DESCENDANT of the parent, insert_before before the reference child, append_attribute after the last attribute and before the children, and last_child_or_self_id of elements and documents answers the last item of the subtree; the initial numbering (unit c14_init: init_order_recursive of elements, documents and attributes, induction by contract over the recursion) appends exactly the subtree in the order element, namespace declarations, attributes, children',
     ),
     'C19': dict(
         standin_ops=['xpath.query.ctx_reuse'],
